@@ -197,6 +197,8 @@ pub enum Spec {
     Files { k: usize, cap: usize },
     /// the name-relation space of names.rs: all ordered pairs of names of at most 1+`extra` characters in all role pairs
     Names { extra: usize },
+    /// the scaled families of scaled.rs (large in one dimension)
+    Scaled { deep: bool },
 }
 
 impl Spec {
@@ -207,6 +209,7 @@ impl Spec {
             Spec::PSpace { max_fields, recursion } => format!("PresentationSpace(fields<={max_fields}{})", if *recursion { ",recursive" } else { "" }),
             Spec::Files { k, .. } => format!("RepositoryGrammars(+{k} edits)"),
             Spec::Names { extra } => format!("NameRelations(names<={} chars, {} role pairs)", 1 + extra, crate::names::ROLE_PAIRS.len()),
+            Spec::Scaled { deep } => format!("ScaledFamilies({})", if *deep { "deep" } else { "quick" }),
         }
     }
 }
@@ -367,6 +370,25 @@ pub fn sweep(specs: &[Spec], budget_s: f64, per_case: &(dyn Fn(&Case, u64, &mut 
                     })
                     .collect();
                 (accs, json!({"valid_files_of_the_space": cases.len()}))
+            }
+            Spec::Scaled { deep } => {
+                let fams = crate::scaled::families(*deep);
+                let accs: Vec<Acc> = fams
+                    .par_iter()
+                    .enumerate()
+                    .map(|(i, f)| {
+                        let mut acc = Acc::default();
+                        if over() {
+                            capped.store(true, std::sync::atomic::Ordering::Relaxed);
+                            return acc;
+                        }
+                        let case = Case::new(f.g.clone(), crate::scaled::presentation(f, i));
+                        per_case(&case, (i as u64) | (1 << 58), &mut acc);
+                        acc.inc("grammars");
+                        acc
+                    })
+                    .collect();
+                (accs, json!({"members": fams.iter().map(|f| f.name.clone()).collect::<Vec<_>>()}))
             }
         };
         let mut sacc = Acc::default();
@@ -791,12 +813,12 @@ pub fn reference_or_note(case: &Case, acc: &mut Acc) -> Option<Reference> {
 fn specs_for(tier: Tier) -> Vec<Spec> {
     match tier {
         Tier::Quick => {
-            let mut v = vec![g(2, 2, 3, 3), g(2, 0, 3, 3), g(2, 1, 3, 3), g(1, 3, 3, 2), Spec::Files { k: 1, cap: 250 }, Spec::Names { extra: 2 }];
+            let mut v = vec![g(2, 2, 3, 3), g(2, 0, 3, 3), g(2, 1, 3, 3), g(1, 3, 3, 2), Spec::Files { k: 1, cap: 250 }, Spec::Names { extra: 2 }, Spec::Scaled { deep: false }];
             v.extend(all_seed_nbh(1, 1, 100_000));
             v
         }
         Tier::Thorough => {
-            let mut v = vec![g(2, 2, 3, 3), g(2, 3, 4, 2), g(3, 2, 4, 2), gsym(2, 2, 4, 3), g(1, 3, 4, 3), gsym(3, 3, 3, 2), Spec::Files { k: 1, cap: 3000 }, Spec::Names { extra: 3 }];
+            let mut v = vec![g(2, 2, 3, 3), g(2, 3, 4, 2), g(3, 2, 4, 2), gsym(2, 2, 4, 3), g(1, 3, 4, 3), gsym(3, 3, 3, 2), Spec::Files { k: 1, cap: 3000 }, Spec::Names { extra: 3 }, Spec::Scaled { deep: true }];
             v.extend(all_seed_nbh(2, 1, 60_000));
             v
         }
@@ -953,6 +975,9 @@ pub fn case_from_source(src: &str) -> Option<Case> {
             for (j, f) in fs.fields().iter().enumerate() {
                 rhs.push(if f.sym.terminal { Sym::T(t_index(&f.sym.name)? as u8) } else { Sym::N(index_of_name(&f.sym.name)? as u8) });
                 if f.skipped {
+                    if j >= 32 {
+                        return None; // the mask of a Presentation repeats after 32 positions: not representable
+                    }
                     mask |= 1 << j;
                 }
                 if let Some(n) = &f.name {
